@@ -1,9 +1,26 @@
 (** Structure layer of C09: the serialisation entry points of [DcmMetaExtension] over the raw content,
     with the validity check abstract, and sample values for the non-vacuity examples. *)
 From Coq Require Import List Bool ZArith NArith Lia.
-From DV Require Import Common.Str Common.Jv Common.Res Json.Model Json.ProofsLex Json.ProofsNum Json.ProofsCodec.
+From DV Require Import Common.Str Common.Jv Common.Res Json.Model Json.ProofsLex Json.ProofsNum Json.ProofsCodec Json.ProofsUtf8.
 Import ListNotations.
 Local Open Scope N_scope.
+
+(** The bytes of a well-formed content are its printed text (pure ASCII), and they decode and parse back. *)
+Lemma mangle_print e : wf e -> mangle e = print e.
+Proof. intros Hwf. unfold mangle. apply utf8_encode_ascii. apply print_ascii; exact Hwf. Qed.
+
+Lemma unmangle_mangle e : wf e -> unmangle (mangle e) = Some e.
+Proof.
+  intros Hwf. unfold unmangle, mangle. rewrite utf8_decode_encode.
+  - apply parse_print; exact Hwf.
+  - apply ascii_scalar. apply print_ascii; exact Hwf.
+Qed.
+
+Lemma to_str_print e : wf e -> to_str e = Ok (print e).
+Proof.
+  intros Hwf. unfold to_str, mangle. rewrite utf8_decode_encode; [reflexivity|].
+  apply ascii_scalar. apply print_ascii; exact Hwf.
+Qed.
 
 Section Structure.
   Variable check_valid : jv -> res unit.
@@ -33,8 +50,8 @@ Section Structure.
     - intros ->. reflexivity.
   Qed.
 
-  Lemma str_is_json e s : to_json check_valid e = Ok s -> to_str e = s.
-  Proof. intros H. apply to_json_text in H as [-> _]. reflexivity. Qed.
+  Lemma str_is_json e s : wf e -> to_json check_valid e = Ok s -> to_str e = Ok s.
+  Proof. intros Hwf H. apply to_json_text in H as [-> _]. apply to_str_print; exact Hwf. Qed.
 
   Variable store : str -> option str.
   Hypothesis store_faithful : forall b, store b = Some b.
@@ -45,8 +62,8 @@ Section Structure.
     from_json check_valid (print e) = from_runtime_repr check_valid e
     /\ save_load check_valid store e = from_runtime_repr check_valid e.
   Proof.
-    intros Hwf. unfold from_json, from_runtime_repr, save_load, mangle, unmangle.
-    rewrite store_faithful, (parse_print e Hwf). split; [reflexivity|].
+    intros Hwf. unfold from_json, from_runtime_repr, save_load.
+    rewrite store_faithful, (unmangle_mangle e Hwf), (parse_print e Hwf). split; [reflexivity|].
     destruct (check_valid e) as [[]|x]; reflexivity.
   Qed.
 
@@ -76,7 +93,7 @@ Section Structure.
   Proof.
     intros Hwf Hv. unfold hstep. rewrite Hv, store_faithful. eexists _, _.
     split; [reflexivity|]. cbn [h_obj h_raw h_file]. split; [reflexivity|]. split; [reflexivity|].
-    unfold unmangle, mangle. rewrite (parse_print _ Hwf), Hv. cbn [h_obj h_raw].
+    rewrite (unmangle_mangle _ Hwf), Hv. cbn [h_obj h_raw].
     repeat split; reflexivity.
   Qed.
 
